@@ -1,4 +1,4 @@
-import NoteSeqVerif.Proofs.C17
+import NoteSeqVerif.Proofs.C17Extra
 /-! C17 — event sequences keep length, step range and indexing consistent under any edits.
 
 Property theorems only (helper lemmas: `Proofs/C17.lean`; predicates: `Proofs/C17Spec.lean`;
@@ -205,6 +205,7 @@ theorem step_frame (c : Cls α) (s s' : Seq α) (op : Op α) (h : step c s op = 
     | .append e => s'.events = s.events ++ [e] ∧ s'.start = s.start ∧ s'.spb = s.spb ∧ s'.spq = s.spq
     | .setLength _ _ => s'.spb = s.spb ∧ s'.spq = s.spq
     | .slice _ _ => s'.spb = s.spb ∧ s'.spq = s.spq
+    | .sliceStep _ _ _ => s'.spb = s.spb ∧ s'.spq = s.spq
     | .deepcopy => s'.events = c.clean s.events ∧ s'.start = s.start ∧ s'.spb = s.spb ∧ s'.spq = s.spq
     | .reinit ev st b q => s'.events = c.clean ev ∧ s'.start = st ∧ s'.spb = b ∧ s'.spq = q
     | .reset => s'.events = [] ∧ s'.start = 0
@@ -394,5 +395,230 @@ theorem perf_observations_consistent (p : Perf) (hi : PInv p) :
 
 example : PInv ⟨[⟨1, 60⟩, ⟨3, 2⟩], 7, 3⟩ ∧ ShiftsOk 3 [⟨1, 60⟩, ⟨3, 2⟩] := by
   refine ⟨⟨by decide, ?_⟩, ?_⟩ <;> intro e he <;> simp at he <;> rcases he with rfl | rfl <;> decide
+
+/-! ## Melody events stay within -2..127
+
+`melody_in_range` reads the bound off the invariant; the invariant is established by the constructor
+(`inv_init`, `inv_from_event_list`) and preserved by every operation (`inv_step`).  Spelled out for
+Melody: after ANY single operation of the alphabet — `append` (which rejects anything outside the
+range), `set_length` from either end (pads with NO_EVENT, may write one NOTE_OFF), both kinds of
+slice, `increase_resolution` (fills with NO_EVENT), `deepcopy`, re-initialisation through
+`_from_event_list` (which rejects lists containing anything outside the range), `_reset` — and
+after any history.  `Melody.transpose` / `Melody.squash` are not in C17's operation alphabet (the
+property statement lists append, set_length, slicing, increase_resolution, deepcopy, truncate and
+re-initialisation); their range behaviour is C10's `melody_transpose_fold` / `squash_spec`. -/
+
+theorem melody_step_in_range (s s' : Seq Int) (op : Op Int) (hi : Inv melodyCls s)
+    (hok : match op with | .setLength n _ => 0 ≤ n | .incRes k _ => 1 ≤ k | _ => True)
+    (h : step melodyCls s op = .ok s') : ∀ e ∈ s'.events, -2 ≤ e ∧ e ≤ 127 := by
+  refine melody_events_in_range s' (step_inv melodyCls melody_lawful s s' op hi ?_ h)
+  cases op <;> first | trivial | exact hok | exact ⟨hok, by simp [melodyCls]⟩
+
+/-- out-of-range events never get in: `append` and re-initialisation reject them, object unchanged -/
+example : step melodyCls ⟨[60], 0, 1, 16, 4⟩ (.append 128) = .error .valueError ∧
+    step melodyCls ⟨[60], 0, 1, 16, 4⟩ (.append (-3)) = .error .valueError ∧
+    step melodyCls ⟨[60], 0, 1, 16, 4⟩ (.reinit [60, 200] 0 16 4) = .error .valueError ∧
+    stepSkip melodyCls ⟨[60], 0, 1, 16, 4⟩ (.append 128) = ⟨[60], 0, 1, 16, 4⟩ := ⟨rfl, rfl, rfl, rfl⟩
+
+theorem melody_reachable_in_range (ops : List (Op Int)) (s : Seq Int) (hi : Inv melodyCls s)
+    (hok : ∀ op ∈ ops, OpOk melodyCls op) : ∀ e ∈ (runSkip melodyCls s ops).events, -2 ≤ e ∧ e ≤ 127 :=
+  melody_events_in_range _ (runSkip_inv melodyCls melody_lawful ops s hi hok)
+
+example : (runSkip melodyCls ⟨[60], 0, 1, 16, 4⟩
+    [.append 127, .append 128, .setLength 5 false, .incRes 2 none, .sliceStep none none (-3), .reinit [-1, 0] 2 8 2]).events
+    = [-2, 0] := by decide
+
+theorem lead_melody_reachable_in_range (ops : List LOp) (l : LeadSheet) (hi : LInv l)
+    (hok : ∀ op ∈ ops, LOpOk op) :
+    ∀ e ∈ (lrunSkip l ops).melody.events, -2 ≤ e ∧ e ≤ 127 :=
+  melody_events_in_range _ (lead_inv_reachable' ops l hi hok).1
+
+/-! ## Extended slices `s[i:j:k]`
+
+What the code does with a stride (and the model transcribes): `self._events.__getitem__(key)`
+raises `ValueError` for `k = 0`; otherwise the result is a new sequence of the same class holding
+`events[lo], events[lo + k], events[lo + 2k], …` with `start_step = self.start_step + lo`, where
+`(lo, hi, k) = slice(i, j, k).indices(len)`, and `end_step = start_step + len(result)`.  The result
+is a consistent sequence (`inv_step` covers `Op.sliceStep`), but the clause "slices carry the step
+offset of the elements they contain" cannot hold for it: element `m` comes from source step
+`start + lo + m·k` and is reported at `start + lo + m` (`strided_slice_misplaces`) — for a negative
+stride the reported range even leaves the source's range.  That is why the clause is stated for
+unit-stride slices (`slice_elements`), with which stride 1 coincides (`py_slice_step_unit`). -/
+
+theorem py_slice_step_elements (l : List α) (i j : Option Int) (k : Int) (hk : k ≠ 0) :
+    (pySliceStep l i j k).length = stepCount (stepLo l.length k i) (stepHi l.length k j) k ∧
+    ∀ m, m < stepCount (stepLo l.length k i) (stepHi l.length k j) k →
+      0 ≤ stepLo l.length k i + m * k ∧ stepLo l.length k i + m * k < l.length ∧
+      (pySliceStep l i j k)[m]? = l[(stepLo l.length k i + (m : Int) * k).toNat]? :=
+  pySliceStep_spec l i j k hk
+
+example : pySliceStep [10, 11, 12, 13, 14, 15] (some 1) none 2 = [11, 13, 15] ∧
+    pySliceStep [10, 11, 12, 13, 14, 15] none none (-1) = [15, 14, 13, 12, 11, 10] ∧
+    pySliceStep [10, 11, 12, 13, 14, 15] (some (-2)) none (-2) = [14, 12, 10] ∧
+    stepLo 6 (-2) (some (-2)) = 4 ∧ stepLo 0 (-1) none = -1 := by decide
+
+theorem py_slice_step_unit (l : List α) (i j : Option Int) :
+    pySliceStep l i j 1 = pySlice l i j ∧ stepLo l.length 1 i = (sliceLo l.length i : Int) :=
+  ⟨pySliceStep_one l i j, stepLo_one l.length i⟩
+
+/-- `s[i:j:k]`, `k ≠ 0`: offset, events, resolution; always succeeds on a consistent sequence and
+gives a consistent sequence with `len(range(lo, hi, k))` events -/
+theorem strided_slice_result (c : Cls α) (hc : Lawful c) (s : Seq α) (i j : Option Int) (k : Int) (hk : k ≠ 0)
+    (hi : Inv c s) :
+    ∃ s', step c s (.sliceStep i j k) = .ok s' ∧ Inv c s' ∧
+      s'.start = s.start + stepLo s.events.length k i ∧ s'.events = c.clean (pySliceStep s.events i j k) ∧
+      s'.events.length = stepCount (stepLo s.events.length k i) (stepHi s.events.length k j) k ∧
+      s'.spb = s.spb ∧ s'.spq = s.spq := by
+  have hv := fromEventList_of_valid c (pySliceStep s.events i j k) (s.start + stepLo s.events.length k i) s.spb s.spq
+    (fun e he => hi.2 e (pySliceStep_mem _ _ _ _ e he))
+  have hs : step c s (.sliceStep i j k) = .ok ⟨c.clean (pySliceStep s.events i j k), s.start + stepLo s.events.length k i,
+      s.start + stepLo s.events.length k i + ((c.clean (pySliceStep s.events i j k)).length : Int), s.spb, s.spq⟩ := by
+    simp only [step, hk, if_false]; exact hv
+  refine ⟨_, hs, step_inv c hc s _ (.sliceStep i j k) hi trivial hs, rfl, rfl, ?_, rfl, rfl⟩
+  simp only [hc.clean_length]
+  exact (pySliceStep_spec s.events i j k hk).1
+
+theorem strided_slice_zero_step (c : Cls α) (s : Seq α) (i j : Option Int) :
+    step c s (.sliceStep i j 0) = .error .valueError ∧ stepSkip c s (.sliceStep i j 0) = s := by
+  simp [step, stepSkip]
+
+/-- where the elements of `s[i:j:k]` come from and where the slice says they are: element `m` is
+the source element at absolute step `start + lo + m·k` (a step of the source), the slice reports it
+at `start + lo + m`, and the two agree exactly for `m = 0` or `k = 1` -/
+theorem strided_slice_misplaces (c : Cls α) (s s' : Seq α) (i j : Option Int) (k : Int) (hk : k ≠ 0)
+    (hi : Inv c s) (h : step c s (.sliceStep i j k) = .ok s') :
+    ∃ raw, s'.events = c.clean raw ∧ ∀ m, m < raw.length →
+      s.start ≤ s.start + (stepLo s.events.length k i + m * k) ∧
+      s.start + (stepLo s.events.length k i + m * k) < s.stop ∧
+      raw[m]? = s.events[(stepLo s.events.length k i + (m : Int) * k).toNat]? ∧
+      (s'.start + (m : Int) = s.start + (stepLo s.events.length k i + m * k) ↔ (m = 0 ∨ k = 1)) := by
+  simp only [step, hk, if_false] at h
+  obtain ⟨_, he, hs, _, _, _⟩ := fromEventList_ok _ _ _ _ _ _ h
+  obtain ⟨hl, hg⟩ := pySliceStep_spec s.events i j k hk
+  refine ⟨_, he, ?_⟩
+  intro m hm
+  obtain ⟨a, b, e⟩ := hg m (hl ▸ hm)
+  have h1 := hi.1
+  refine ⟨by omega, by omega, e, ?_⟩
+  rw [hs]
+  constructor
+  · intro heq
+    have h2 : (m : Int) * (k - 1) = 0 := by rw [Int.mul_sub, Int.mul_one]; omega
+    rcases Int.mul_eq_zero.1 h2 with h3 | h3
+    · left; omega
+    · right; omega
+  · rintro (h3 | h3)
+    · subst h3; simp
+    · subst h3; omega
+
+example : ∃ s', step (simpleCls (0 : Int)) ⟨[1, 2, 3, 4, 5, 6], 4, 10, 16, 4⟩ (.sliceStep none none (-1)) = .ok s' ∧
+    s'.events = [6, 5, 4, 3, 2, 1] ∧ s'.start = 9 ∧ s'.stop = 15 := ⟨_, rfl, by decide, by decide, by decide⟩
+example : ∃ s', step (simpleCls (0 : Int)) ⟨[1, 2, 3, 4, 5, 6], 4, 10, 16, 4⟩ (.sliceStep (some 1) none 2) = .ok s' ∧
+    s'.events = [2, 4, 6] ∧ s'.start = 5 ∧ s'.stop = 8 := ⟨_, rfl, by decide, by decide, by decide⟩
+
+/-- `LeadSheet[i:j:k]`, `k ≠ 0`, on a consistent lead sheet: never MelodyChordsMismatchError, the
+result is a consistent lead sheet of `len(range(lo, hi, k))` pairs starting at `start + lo` -/
+theorem lead_strided_slice_ok (l : LeadSheet) (i j : Option Int) (k : Int) (hk : k ≠ 0) (hi : LInv l) :
+    ∃ l', lstep l (.sliceStep i j k) = .ok l' ∧ LInv l' ∧
+      l'.melody.start = l.melody.start + stepLo l.len k i ∧
+      l'.len = stepCount (stepLo l.len k i) (stepHi l.len k j) k ∧
+      l'.chords.events = pySliceStep l.chords.events i j k ∧
+      l'.melody.events = melClean (pySliceStep l.melody.events i j k) := by
+  obtain ⟨im, ic, hlen, hst, hsp, hb, hq⟩ := hi
+  obtain ⟨m', hm, _, m1, m2, m3, m4, m5⟩ := strided_slice_result melodyCls melody_lawful l.melody i j k hk im
+  obtain ⟨c', hc, _, c1, c2, c3, c4, c5⟩ := strided_slice_result chordCls chord_lawful l.chords i j k hk ic
+  have hmk : mkLeadSheet m' c' = .ok ⟨m', c'⟩ := by
+    unfold mkLeadSheet
+    rw [if_neg]
+    have e1 := (step_inv melodyCls melody_lawful _ _ (.sliceStep i j k) im trivial hm).1
+    have e2 := (step_inv chordCls chord_lawful _ _ (.sliceStep i j k) ic trivial hc).1
+    simp only [not_or, Decidable.not_not]
+    refine ⟨by rw [m3, c3, hlen], by rw [m4, c4, hb], by rw [m5, c5, hq], by rw [m1, c1, hst, hlen], ?_⟩
+    have : m'.events.length = c'.events.length := by rw [m3, c3, hlen]
+    have : m'.start = c'.start := by rw [m1, c1, hst, hlen]
+    omega
+  have hl : lstep l (.sliceStep i j k) = .ok ⟨m', c'⟩ := by
+    simp only [lstep, hm, hc, bind, Except.bind]; exact hmk
+  refine ⟨_, hl, lead_inv_step' l _ (.sliceStep i j k) ⟨im, ic, hlen, hst, hsp, hb, hq⟩ trivial hl, m1, m3, c2, m2⟩
+
+/-! ## NotePerformance
+
+Not in the property's list of classes (its `set_length` is a documented no-op, so "set_length(n)
+yields exactly n steps" is false for it by design — `nperf_set_length_noop`).  Everything else the
+property says holds and is proved: observations agree with each other, `truncate` keeps a prefix,
+`append` adds at the end, nothing else changes. -/
+
+theorem nperf_step (p : NPerf) (e : NEvent) (n : Int) :
+    nstep p (.append e) = .ok { p with events := p.events ++ [e] } ∧
+    nstep p .appendBad = .error .valueError ∧ nstepSkip p .appendBad = p ∧
+    nstep p .deepcopy = .ok p ∧
+    (0 ≤ n → nstep p (.truncate n) = .ok { p with events := p.events.take n.toNat }) ∧
+    (∃ p', nstep p (.truncate n) = .ok p' ∧ p'.events <+: p.events ∧ p'.start = p.start ∧ p'.maxShift = p.maxShift) := by
+  refine ⟨rfl, rfl, rfl, rfl, ?_, _, rfl, ?_, rfl, rfl⟩
+  · intro hn
+    simp only [nstep, pySlice, sliceLo, sliceHi, clampIdx_of_nonneg _ _ hn]
+    congr 2
+    simp only [List.drop_zero, Nat.sub_zero, List.take_eq_take_iff]
+    omega
+  · simp only [pySlice, sliceLo, List.drop_zero]
+    exact List.take_prefix _ _
+
+/-- the real behaviour of `NotePerformance.set_length`: nothing happens, whatever the arguments -/
+theorem nperf_set_length_noop (p : NPerf) (n : Int) (fl : Bool) :
+    nstep p (.setLength n fl) = .ok p ∧ nstepSkip p (.setLength n fl) = p ∧
+    (p.numSteps ≠ n → (nstepSkip p (.setLength n fl)).numSteps ≠ n) :=
+  ⟨rfl, rfl, fun h => h⟩
+
+example : (nstepSkip ⟨[⟨2, 60, 5, 4⟩, ⟨1, 62, 5, 2⟩], 3, 10⟩ (.setLength 0 false)).numSteps = 5 := by decide
+
+/-- `steps` lists the onset step of every event (start plus the shifts up to and including its
+own), `end_step - start_step = num_steps` = all shifts plus the last duration, indexing and
+iteration agree, and with non-negative shifts the steps never decrease -/
+theorem nperf_observations_consistent (p : NPerf) :
+    p.steps.length = p.len ∧ p.stop - p.start = p.numSteps ∧
+    p.numSteps = shiftSum p.events + (match p.events.getLast? with | some e => e.dur | none => 0) ∧
+    (∀ k, k < p.len → p.steps[k]? = some (p.start + shiftSum (p.events.take (k + 1)))) ∧
+    ((∀ e ∈ p.events, 0 ≤ e.shift) → p.steps.Pairwise (· ≤ ·) ∧ ∀ x ∈ p.steps, p.start ≤ x) ∧
+    (∀ k (hk : k < p.events.length), p.index (k : Int) = .ok p.events[k] ∧ p.index ((k : Int) - p.len) = .ok p.events[k]) ∧
+    (∀ i : Int, (p.len : Int) ≤ i ∨ i < -(p.len : Int) → p.index i = .error .indexError) := by
+  obtain ⟨i1, i2⟩ := pyIndex_spec p.events
+  refine ⟨nstepsFrom_length _ _, by simp only [NPerf.stop]; omega, rfl, fun k hk => nstepsFrom_getElem _ _ k hk, ?_, i1, i2⟩
+  intro h
+  obtain ⟨a, b⟩ := nstepsFrom_mono p.start p.events h
+  exact ⟨b, a⟩
+
+/-- after any history: start and max_shift_steps are what they were, and every shift is
+non-negative if the initial and the appended ones are -/
+theorem nperf_reachable (ops : List NOp) (p : NPerf) :
+    (nrunSkip p ops).start = p.start ∧ (nrunSkip p ops).maxShift = p.maxShift ∧
+    ((∀ e ∈ p.events, 0 ≤ e.shift) → (∀ e, NOp.append e ∈ ops → 0 ≤ e.shift) →
+      ∀ e ∈ (nrunSkip p ops).events, 0 ≤ e.shift) := by
+  induction ops generalizing p with
+  | nil => exact ⟨rfl, rfl, fun h _ => h⟩
+  | cons op ops ih =>
+    simp only [nrunSkip, List.foldl_cons]
+    obtain ⟨a, b, c⟩ := ih (nstepSkip p op)
+    simp only [nrunSkip] at a b c
+    have hs : (nstepSkip p op).start = p.start ∧ (nstepSkip p op).maxShift = p.maxShift ∧
+        ((∀ e ∈ p.events, 0 ≤ e.shift) → (∀ e, op = .append e → 0 ≤ e.shift) →
+          ∀ e ∈ (nstepSkip p op).events, 0 ≤ e.shift) := by
+      cases op with
+      | append e =>
+        refine ⟨rfl, rfl, ?_⟩
+        intro h1 h2 x hx
+        simp only [nstepSkip, nstep, List.mem_append, List.mem_singleton] at hx
+        rcases hx with hx | hx
+        · exact h1 x hx
+        · rw [hx]; exact h2 e rfl
+      | appendBad => exact ⟨rfl, rfl, fun h _ => h⟩
+      | setLength n fl => exact ⟨rfl, rfl, fun h _ => h⟩
+      | truncate n =>
+        refine ⟨rfl, rfl, ?_⟩
+        intro h1 _ x hx
+        exact h1 x (pySlice_mem _ _ _ x hx)
+      | deepcopy => exact ⟨rfl, rfl, fun h _ => h⟩
+    refine ⟨a.trans hs.1, b.trans hs.2.1, ?_⟩
+    intro h1 h2
+    exact c (hs.2.2 h1 (fun e he => h2 e (by simp [he]))) (fun e he => h2 e (by simp [he]))
 
 end NSV.C17
